@@ -500,6 +500,71 @@ def main(inp, emit):
     return {'ok': ok, 'balance': account.total()}
 '''
 
+# a program whose main() runs a SCRIPT BODY (this very file, re-executed in a fresh namespace): tracepoints on lines of
+# the module body (#@M, #@N), in a function called from the module body (#@H: with frame_type=all_frame the <module>
+# frame is collected) and in a class body (#@C, #@D).  The f_locals of a module-body / class-body frame IS the live
+# namespace of the module / of the class being built — anything the agent writes to or deletes from it is a change of
+# the host's data.  The program reads its own dunder names after every marked line and returns both namespaces.
+PROGRAMS['modbody'] = '''"""Inventory report."""
+import os
+
+__all__ = ['total', 'Shelf']
+__version__ = '1.4'
+_private = 'p'
+
+
+def helper(n):
+    k = n * 2               #@H
+    return k + len(__all__)
+
+
+if __name__ == 'verif_rerun':
+    ITEMS = {'bolt': 3, 'nut': 4 + INP}
+    total = sum(ITEMS.values())     #@M
+    doubled = helper(total)         #@N
+
+    class Shelf:
+        """A shelf."""
+        slots = 3 + INP
+        width = slots * 2           #@C
+        label = __qualname__ + '@' + __module__     #@D
+        __slots__ = ()
+
+        def size(self):
+            return self.width
+
+    REPORT = ['total=%d doubled=%d' % (total, doubled), 'version=' + __version__, 'module=' + __name__,
+              'doc=' + str(__doc__), 'file=' + os.path.basename(__file__), 'all=' + ','.join(__all__),
+              'shelf=%d %s %s' % (Shelf().size(), Shelf.label, Shelf.__doc__)]
+    EMIT(REPORT[0])
+
+
+def simple(v):
+    if isinstance(v, (str, int, float, bool, type(None))):
+        return v
+    if isinstance(v, (list, tuple)):
+        return [simple(x) for x in v]
+    if isinstance(v, dict):
+        return {str(k): simple(x) for k, x in sorted(v.items(), key=lambda kv: str(kv[0]))}
+    return type(v).__name__
+
+
+def main(inp, emit):
+    with open(__file__) as f:
+        code = compile(f.read(), __file__, 'exec')
+    ns = {'__name__': 'verif_rerun', '__file__': __file__, '__package__': '', '__spec__': None, '__loader__': None,
+          '__cached__': None, '__builtins__': __builtins__, 'INP': inp, 'EMIT': emit}
+    exec(code, ns)
+    shelf = ns['Shelf']
+    data = {k: simple(v) for k, v in ns.items() if k not in ('__builtins__', 'EMIT', '__file__')}
+    data['__builtins__ present'] = '__builtins__' in ns
+    data['names in order'] = [k for k in ns if k != 'EMIT']
+    data['class namespace'] = {k: simple(v) for k, v in vars(shelf).items()}
+    data['class names in order'] = list(vars(shelf))
+    emit('names %d' % len(ns))
+    return data
+'''
+
 # known finding C01/finalisation-delayed-until-gc: the same program WITHOUT gc.collect() — its result depends on
 # objects being finalised by reference counting as soon as the function that held them returns
 PROGRAMS['finalizers_nogc'] = PROGRAMS['finalizers'].replace('        gc.collect()\n', '')
